@@ -35,13 +35,13 @@ End PtInd.
 Lemma pt_eqb_eq : forall a b, pt_eqb a b = true <-> a = b.
 Proof.
   induction a as [l|ch IH] using pt_ind'; intros [l'|ch']; simpl; split; intro H;
-    try discriminate; try (inversion H; subst).
+    try discriminate.
   - apply Z.eqb_eq in H. congruence.
-  - apply Z.eqb_refl.
+  - inversion H. apply Z.eqb_refl.
   - f_equal. revert ch' H. induction IH as [|x xs Hx _ IHxs]; intros [|y ys] H;
       try discriminate; try reflexivity.
     apply andb_true_iff in H as [H1 H2]. apply Hx in H1. subst. f_equal. apply IHxs, H2.
-  - clear H. induction IH as [|x xs Hx _ IHxs]; [reflexivity|].
+  - inversion H as [E]. subst ch'. clear H. induction IH as [|x xs Hx _ IHxs]; [reflexivity|].
     apply andb_true_iff; split; [apply Hx; reflexivity | exact IHxs].
 Qed.
 
@@ -80,7 +80,7 @@ Qed.
    rank (unrank (s,l)) = (s,l) on the dense ranges, n <= 6 *)
 Definition chk_unrank_rank (n : Z) : bool :=
   match num_shapes n with
-  | Ok S =>
+  | Ok nS =>
       forallb (fun s =>
         match num_labellings n s with
         | Ok N => forallb (fun l => match tree_unrank n s l with
@@ -88,7 +88,7 @@ Definition chk_unrank_rank (n : Z) : bool :=
                                     | _ => false
                                     end) (zrange 0 (Z.to_nat N))
         | _ => false
-        end) (zrange 0 (Z.to_nat S))
+        end) (zrange 0 (Z.to_nat nS))
   | _ => false
   end.
 
@@ -113,8 +113,8 @@ Proof.
 Qed.
 
 Example unrank_then_rank_bounded_ex :
-  num_shapes 6 = Ok 33 /\ num_labellings 6 17 = Ok 180 /\
-  tree_unrank 6 17 101 = Ok (PN [PL 3; PN [PL 1; PL 4]; PN [PL 0; PL 2; PL 5]]).
+  num_shapes 6 = Ok 33 /\ num_labellings 6 17 = Ok 30 /\
+  tree_unrank 6 17 21 = Ok (PN [PL 4; PN [PL 1; PN [PL 0; PL 2; PL 3; PL 5]]]).
 Proof. vm_compute. repeat split. Qed.
 
 (* ------------------------------------------------------------------------------
@@ -199,9 +199,9 @@ Proof.
   specialize (A n). assert (In n (zrange 1 6)) as I by (apply In_zrange; lia).
   specialize (A I). unfold chk_rank_unrank in A. rewrite forallb_forall in A.
   specialize (A t Ht).
-  destruct (tree_rank t) as [[s l]| | |]; try discriminate.
-  destruct (tree_unrank n s l) as [t'| | |]; try discriminate.
-  exists s, l, t'. repeat split. apply pt_eqb_eq, A.
+  destruct (tree_rank t) as [[s l]| | |] eqn:E1; try discriminate.
+  destruct (tree_unrank n s l) as [t'| | |] eqn:E2; try discriminate.
+  exists s, l, t'. split; [reflexivity|]. split; [exact E2|]. apply pt_eqb_eq, A.
 Qed.
 
 (* ------------------------------------------------------------------------------
@@ -249,12 +249,12 @@ Proof. exists 5. vm_compute. repeat split; discriminate. Qed.
    (the unbounded statements are in OorProofs.v) *)
 Definition chk_oor (n : Z) : bool :=
   match num_shapes n with
-  | Ok S =>
-      match tree_unrank n S 0 with Err 1 => true | _ => false end &&
+  | Ok nS =>
+      match tree_unrank n nS 0 with Err 1 => true | _ => false end &&
       forallb (fun s => match num_labellings n s with
                         | Ok N => match tree_unrank n s N with Err 1 => true | _ => false end
                         | _ => false
-                        end) (zrange 0 (Z.to_nat S))
+                        end) (zrange 0 (Z.to_nat nS))
   | _ => false
   end.
 
